@@ -123,7 +123,7 @@ def draw_prm(rnd, algo):
     p = {"nu": rnd.choice([1, 1, round(rnd.uniform(0.2, 4), 3), round(rnd.uniform(0.02, 0.2), 3)]), "rho": rnd.choice([0.5, 0.5, 0.25, round(rnd.uniform(0.3, 0.8), 3)])}
     if algo in ("HCT", "VHCT"):
         p["c"] = rnd.choice([0.1, round(math.exp(rnd.uniform(math.log(0.03), math.log(0.6))), 4)])
-        p["delta"] = rnd.choice([0.01, round(math.exp(rnd.uniform(math.log(0.001), math.log(0.3))), 5)])
+        p["delta"] = rnd.choice([0.01, round(math.exp(rnd.uniform(math.log(0.001), math.log(0.3))), 5), rnd.choice([1e-8, 1e-13, 1e-16, 1e-20])])     # also very high confidence levels
     if algo == "VHCT":
         p["bound"] = rnd.choice([1, 0.5, 2])
     return p
@@ -150,7 +150,7 @@ def random_cfgs(tier, base_id, algos=("T_HOO", "HCT", "VHCT"), queries=False, se
                 raise C.Machinery("no representable parameter draw")
             i += 1
             q = sorted(rnd.sample(range(n), 4)) if queries or rep % 4 == 0 else []
-            cfgs.append({"id": i, "algo": algo, "kind": kind, "K": Kk, "D": D, "box": box, "n": n, "T": n, "prm": prm, "pattern": rnd.choice(["g01", "bern", "peak", "peak", "tied", "const", "flat"]), "seed": rnd.randrange(1 << 30), "queries": q, "midq": sorted(rnd.sample(range(n), 3)) if rep % 4 == 2 else [], "rtype": [None, "f32", "f64", "i64", "int", None][rep % 6]})
+            cfgs.append({"id": i, "algo": algo, "kind": kind, "K": Kk, "D": D, "box": box, "n": n, "T": n, "prm": prm, "pattern": rnd.choice(["g01", "bern", "peak", "peak", "tied", "const", "flat", "spike", "spike"]), "seed": rnd.randrange(1 << 30), "queries": q, "midq": sorted(rnd.sample(range(n), 3)) if rep % 4 == 2 else [], "rtype": [None, "f32", "f64", "i64", "int", None][rep % 6]})
     # runs that cross the refresh rounds 512 (and 1024): delta~ is recomputed when the counter *equals* a power of two
     for algo in algos:
         if algo not in ("HCT", "VHCT"):
@@ -165,6 +165,18 @@ def random_cfgs(tier, base_id, algos=("T_HOO", "HCT", "VHCT"), queries=False, se
                 raise C.Machinery("no representable parameter draw")
             i += 1
             cfgs.append({"id": i, "algo": algo, "kind": rnd.choice(["bin", "kary"]), "K": 3, "D": 1, "box": [[0.0, 1.0]], "n": T, "T": T, "prm": prm, "pattern": rnd.choice(["g01", "peak", "flat"]), "seed": rnd.randrange(1 << 30), "queries": []})
+    # a cell that is pulled more than a thousand times (small nu: thresholds far above the run length)
+    if "VHCT" in algos or "HCT" in algos:
+        for algo in [a for a in ("VHCT", "HCT") if a in algos][: (1 if tier == "quick" else 2)]:
+            prm = {"nu": 0.1, "rho": 0.5, "c": 1.0, "delta": 0.01}
+            if algo == "VHCT":
+                prm["bound"] = 1
+            T = 2400
+            t = TB.tables({"algo": algo, "n": T, "T": T, "prm": prm, "RU": 8})
+            if t is None or t["amb"]:
+                raise C.Machinery("long-run parameters not representable")
+            i += 1
+            cfgs.append({"id": i, "algo": algo, "kind": "bin", "K": 2, "D": 1, "box": [[0.0, 1.0]], "n": T, "T": T, "prm": prm, "pattern": "bern", "seed": rnd.randrange(1 << 30), "queries": [], "RU": 8})     # 0/1 rewards: large variance, VHCT's thresholds stay high
     # nu sqrt(n) exactly a power of 1/rho: the published depth bound of T-HOO is an integer -- the place where a
     # differently rounded evaluation of the same formula, or int()+1 for ceil(), goes wrong
     if "T_HOO" in algos:
